@@ -24,6 +24,14 @@ CLAIMED = {
          "exhaustive small-scope enumeration of field-length boundaries x mutation kinds x map shapes; two decoders and a set comparison of both encodings",
          "Every combination of row/family/qualifier/value length boundaries, 6 timestamps incl. the latest sentinel, 5 mutation kinds and 11 value-map shapes (nil/empty inner and outer maps, two families in both orders) is encoded by the client as cellblock and as protobuf; the cellblock is decoded by the client's own reader and by an independent KeyValue reader (identical fields, exact byte consumption, declared count), and the cells denoted by the protobuf form are compared as a set with the cellblock form and with the requested cells.",
          "Lengths only at the listed boundary values; protobuf-form semantics per HBase ProtobufUtil.", "DESIGN.md §4 C10"),
+ "C06": ("model_checking",
+         "exhaustive enumeration of every server chunking (environment choices under the controlled runtime) x small tables / layouts / ranges / directions; real scanner vs sorted range-filtered model",
+         "The real scanner runs over a simulated RPCClient; for every response the explorer chooses how many cells are returned (0 = heartbeat), whether the end of the region is reported with the data or separately, and whether more_results=false is sent early; all choice sequences are enumerated for every subset of 3-4 row keys (incl. keys ending in 00/ff), 1-3 cells, 1-4 regions, every [start,stop), both directions, row limits and partials on/off (958k executions quick). Oracle: Next() yields exactly the sorted range-filtered rows, whole, once; fragments concatenate; shared region descriptors are not mutated; a second scan through the same client agrees.",
+         "Heartbeat / deferred end-of-region liberties capped at one per region scanner; default thread schedule; scope bounds on rows/regions.", "DESIGN.md §4 C06"),
+ "C14": ("model_checking",
+         "the C06 harness with the scan ended at every point x every server chunking; server-side scanner table as observer",
+         "Every C06-style configuration (3 rows) is additionally ended after every number of Next calls by Close, cancellation, an RPC error on request j, or more_results=false while a region scanner is open, with and without a lease renewer on the virtual clock; all chunkings enumerated. Oracle: error/cancellation once then io.EOF, Close idempotent, no region scanner left open on the simulated server after draining, no client thread (renewer) left.",
+         "As C06.", "DESIGN.md §4 C14"),
  "C08": ("model_checking",
          "explicit-state breadth-first search over the real location cache, every transition executed on the implementation and judged against an interval model",
          "All 1683 reachable states of a universe of every interval over 3 boundary points x 2 ids (plus a prefix-named table) with put/del of every region as transitions (87k per configuration), repeated with 0..130 filler regions to move entries across B-tree pages; invariant (no two cached regions of a table intersect) in every state, transition relation (evict-all-older / unchanged) on every edge, dead marks, and a differential rebuild from the canonical state.",
@@ -34,7 +42,7 @@ CLAIMED = {
          "Every ordered pair of ~2.6k (quick) / ~10k (thorough) well-formed region names and every triple of a 160-name subset is compared with the real comparator and with a component-wise (table,start,id) oracle; search keys 'table,key,:' are compared against every name. Exhaustive within the stated alphabet and key length, which is where comparator mistakes live (bytes around ',' and unequal lengths).",
          "Scope bound: start keys <=2/<=3 bytes over {00,'+',',','-','a',ff}; well-formed names only.", "DESIGN.md §4 C16"),
 }
-FIX_COMMITS = ["0da2129", "62252c5", "effb93f"]
+FIX_COMMITS = ["0da2129", "62252c5", "effb93f", "0cef440", "27c75df"]
 NA_REASONS = {}
 PENDING_REASON = "check under construction in this revision (planned: see DESIGN.md §4); not claimed until its check is committed"
 
